@@ -12,9 +12,21 @@ namespace Gwf
 inductive JobSt | pending | running | completed | failed | cancelled
   deriving DecidableEq, Repr, Inhabited
 
-def JobSt.toB : JobSt → BStatus
-  | .pending => .submitted | .running => .running | .completed => .completed
-  | .failed => .failed | .cancelled => .cancelled
+/-- which scheduler the project uses (it decides how much of a job's fate gwf can see) -/
+inductive Backend | slurm | sge | lsf | localPool
+  deriving DecidableEq, Repr, Inhabited
+
+/-- what `TrackingBackend.status` reports for a job in life-cycle state `s`: Slurm (accounting on) and
+    the local pool report every state; SGE forgets a job as soon as it leaves the queue; LSF reports
+    a killed job as EXIT, i.e. failed -/
+def JobSt.toBOn (b : Backend) : JobSt → BStatus
+  | .pending => .submitted
+  | .running => .running
+  | .completed => if b == .sge then .unknown else .completed
+  | .failed => if b == .sge then .unknown else .failed
+  | .cancelled => if b == .sge then .unknown else if b == .lsf then .failed else .cancelled
+
+def JobSt.toB : JobSt → BStatus := JobSt.toBOn .slurm
 
 def JobSt.name : JobSt → String
   | .pending => "pending" | .running => "running" | .completed => "completed"
@@ -45,6 +57,7 @@ structure World where
   nextId  : Nat
   clock   : Nat                          -- time stamps handed out by `touch` / finishing jobs
   hashing : Bool                         -- config `use_spec_hashes`
+  backend : Backend := .slurm
 
 def World.job? (w : World) (jid : String) : Option Job := w.jobs.find? (fun j => j.id == jid)
 
@@ -54,7 +67,7 @@ def World.bstat (w : World) (name : String) : BStatus :=
   | none => .unknown
   | some jid => match w.job? jid with
     | none => .unknown
-    | some j => j.st.toB
+    | some j => j.st.toBOn w.backend
 
 /-- `spec_hashes.has_changed(target) is not None` -/
 def World.specChanged (w : World) (t : WT) : Bool :=
@@ -107,6 +120,10 @@ def World.run (w : World) (wf : List WT) (patterns : List String) : Except GErr 
   | .error e => .error e
   | .ok subs => .ok (subs.foldl (fun w s => w.submit wf s.1 s.2) w)
 
+def WT.outsAbs (dir : String) (t : WT) : List String := t.outs.flatten.map (normS dir dir)
+def WT.insAbs (dir : String) (t : WT) : List String := t.ins.flatten.map (normS dir dir)
+def WT.protAbs (dir : String) (t : WT) : List String := t.prot.flatten.map (normS dir dir)
+
 /-- post-order visit of `gwf touch` -/
 def touchVisit (deps : Nat → List Nat) : Nat → List Nat → Nat → List Nat
   | 0, acc, _ => acc
@@ -116,9 +133,9 @@ def touchVisit (deps : Nat → List Nat) : Nat → List Nat → Nat → List Nat
 
 def World.touchOne (w : World) (wf : List WT) (t : Nat) : World :=
   match wtOf wf t with
-  | none => w
+  | none => { w with clock := w.clock + 1 }
   | some wt =>
-    let outs := (w.raw wt).toTgt w.dir |>.outs
+    let outs := wt.outsAbs w.dir
     let clk := w.clock + 1
     { w with clock := clk,
              files := outs.foldl (fun fs p => aset p clk fs) w.files,
@@ -138,17 +155,17 @@ def World.cleanMatches (wf : List WT) (g : Graph String) (patterns : List String
   let byName := if patterns.isEmpty then wf else wf.filter (fun t => patterns.any (fun p => Glob.globMatch p t.name))
   if all then byName else byName.filter (fun t => !g.endpoints.contains t.id)
 
+/-- clean one target: forget its spec hash, delete its unprotected declared outputs -/
+def World.cleanOne (w : World) (t : WT) : World :=
+  let prot := t.protAbs w.dir
+  { w with hashes := if w.hashing then aerase t.name w.hashes else w.hashes,
+           files := (t.outsAbs w.dir).foldl (fun fs p => if prot.contains p then fs else aerase p fs) w.files }
+
 /-- `gwf clean` after the confirmation (or `--force`) -/
 def World.clean (w : World) (wf : List WT) (patterns : List String) (all : Bool) : Except GErr World :=
   match (w.proj wf none).graph with
   | .error e => .error e
-  | .ok g =>
-    .ok ((World.cleanMatches wf g patterns all).foldl (fun w t =>
-      let r := w.raw t
-      let prot := r.protected w.dir
-      let outs := (r.toTgt w.dir).outs
-      { w with hashes := if w.hashing then aerase t.name w.hashes else w.hashes,
-               files := outs.foldl (fun fs p => if prot.contains p then fs else aerase p fs) w.files }) w)
+  | .ok g => .ok ((World.cleanMatches wf g patterns all).foldl World.cleanOne w)
 
 /-- the cancel commands `gwf cancel [patterns]` issues, in order: (target name, job id or none) -/
 def World.cancelCmds (w : World) (wf : List WT) (patterns : List String) : Except GErr (List (String × Option String)) :=
